@@ -438,3 +438,13 @@ package htlcswitch
 //@   ensures called(AddHTLC) && retn(AddHTLC, 1) == nil ==> result == nil && called(SendMessage) && called(tryBatchUpdateCommitTx)
 //@   site call tryBatchUpdateCommitTx: assert len(l.keystoneBatch) == old(len(l.keystoneBatch)) + 1 &&
 //@        len(l.openedCircuits) == old(len(l.openedCircuits)) + 1 && called(SendMessage)
+//@
+//@ // ---- a held forward that the interceptor fails or settles: the response handed to the incoming link is for the held packet's own
+//@ // ---- incoming HTLC and carries the reference of its Add in the forwarding package (sourceRef) - without it the Add is never acked and is
+//@ // ---- replayed, and forwarded, on every later start of the incoming link although a response has already gone upstream
+//@ func (f *interceptedForward) resolve
+//@   props C07 C08
+//@   site call Deliver: assert arg(1) == f.packet.incomingChanID && arg(2).incomingChanID == f.packet.incomingChanID &&
+//@        arg(2).incomingHTLCID == f.packet.incomingHTLCID && arg(2).sourceRef == f.packet.sourceRef && arg(2).isResolution &&
+//@        arg(2).htlc == message && arg(2).obfuscator == f.packet.obfuscator && arg(2).circuit == f.packet.circuit
+//@   ensures called(Deliver) && result == ret(Deliver)
